@@ -70,7 +70,7 @@ def sexpr_name(t):
     return t.sexpr()
 
 
-def verify_units(contracts, repo, outdir, timeouts=(10, 20, 40), workers=16, verbose=False):
+def verify_units(contracts, repo, outdir, timeouts=(10, 20, 40), workers=16, verbose=False, group=None):
     results = []
     work = []
     t0 = time.time()
@@ -84,18 +84,63 @@ def verify_units(contracts, repo, outdir, timeouts=(10, 20, 40), workers=16, ver
         if err:
             continue
         vals = [sexpr_name(t) for t in param_consts(ex)]
-        defs = list(ex.ctx.defs)
+        defs = ex.ctx.defs
         # vacuity canary: requires must be satisfiable (expect sat/unknown, never unsat)
         canary = E.Obligation(ex.unit, "canary", "requires-satisfiable", unit_line(ex), [ex.pre], z3.BoolVal(False),
                               expect_sat=True)
         rec["canary"] = canary
         work.append((canary, D.to_smt2(canary, defs, vals)))
+        if group:
+            obls[:] = [o for o in obls if group in o.group]
         for o in obls:
             work.append((o, D.to_smt2(o, defs, vals)))
+    # proofs of the prelude lemmas the units relied on (induction schema)
+    used = set()
+    for rec in results:
+        if rec.get("ex") is not None:
+            used.update(getattr(rec["ex"], "lemmas_used", []))
+    if used:
+        from . import lemmas as L
+        lem_obls = []
+        for name in sorted(used):
+            # a lemma's proof may use earlier lemmas: discharge all of them
+            for kind, lname, hyps, goal in L.LEMMAS[name][1]():
+                o = E.Obligation(_LemmaUnit, kind, lname, 0, hyps, goal)
+                lem_obls.append(o)
+                work.append((o, D.to_smt2(o, [], [])))
+        if "cum_sorted" in used and "mono_prefix" not in used:
+            for kind, lname, hyps, goal in L.LEMMAS["mono_prefix"][1]():
+                o = E.Obligation(_LemmaUnit, kind, lname, 0, hyps, goal)
+                lem_obls.append(o)
+                work.append((o, D.to_smt2(o, [], [])))
+        results.append({"contract": _LemmaUnit.contract, "ex": _LemmaEx(len(lem_obls)), "obls": lem_obls, "error": None,
+                        "skipped": False, "canary": None})
     gen_s = time.time() - t0
     t1 = time.time()
     D.discharge_all(work, outdir, timeouts=timeouts, workers=workers)
     return results, {"gen_s": gen_s, "solve_s": time.time() - t1}
+
+
+class _LC:
+    key = "pyvc/lemmas.py::prelude"
+    name = "prelude"
+    target = "pyvc/lemmas.py::prelude"
+    props = []
+    trusted = False
+    bounded_only = False
+    note = "prelude lemmas proved by the induction schema"
+    domain = None
+
+
+class _LemmaUnit:
+    contract = _LC
+
+
+class _LemmaEx:
+    def __init__(self, n):
+        self.paths = n
+        self.called = set()
+        self.dropped = []
 
 
 def unit_line(ex):
